@@ -169,6 +169,9 @@ def install(loop):
     ClientID.count = 0
     web.json_loads = lambda tok: tok[0].messages[tok[1]]
     web.time = lambda: 0
+    # Event() substitutes time.time() for a missing created_at: CrossHair's nondeterministic clock would be realised
+    import aionostr.event as AE
+    AE.time = types.SimpleNamespace(time=lambda: 1700000000.0)
 
 
 def run_client(loop, store, conn, limiter=None, remote_addr="10.0.0.9"):
